@@ -78,3 +78,55 @@ SPECS["C17"] = dict(
     level_note="Trusted: Kani/CBMC, the Xoshiro oracle model (models/rand_xoshiro). Sizes bounded as listed. Probability statement reduced to forall-lemmas; generator uniformity assumed.",
     technique="Kani/CBMC bounded model checking, inductive step over symbolic permutation state with an oracle RNG model",
 )
+
+
+# --------------------------------------------------------------------------------------- C14
+_c14 = [
+    H("c14_pmh_u64_n4", 600, "quick", "jaccard::compute_probminhash_jaccard::<u64>: exact count/len, symmetric, 1 on identical, in [0,1]", "symbolic length 1..=4, all u64 values"),
+    H("c14_pmh_u64_n6", 900, "thorough", "same", "symbolic length 1..=6"),
+    H("c14_pmh_alias_u64_n4", 600, "quick", "jaccard::get_jaccard_index_estimate::<u64>", "symbolic length 1..=4"),
+    H("c14_pmh_f64_n4", 600, "quick", "jaccard::compute_probminhash_jaccard::<f64> (no NaN)", "symbolic length 1..=4"),
+    H("c14_pmh_mismatch_n4", 600, "quick", "unequal lengths: compute_probminhash_jaccard never returns a value (panics)", "all length pairs <= 4", expect_cover="none"),
+    H("c14_pmh_alias_mismatch_n4", 600, "quick", "unequal lengths: jaccard::get_jaccard_index_estimate never returns a value", "all length pairs <= 4", expect_cover="none"),
+    H("c14_smh_free_f64_n4", 600, "quick", "superminhasher::compute_superminhash_jaccard::<f64>: exact, symmetric, Err on unequal lengths", "symbolic lengths <= 4"),
+    H("c14_smh_free_f32_n4", 600, "quick", "superminhasher::compute_superminhash_jaccard::<f32>", "symbolic lengths <= 4"),
+    H("c14_smh_alias_f64_n4", 600, "thorough", "superminhasher::get_jaccard_index_estimate::<f64>", "symbolic lengths <= 4"),
+    H("c14_smh_free_f64_n6", 900, "thorough", "superminhasher::compute_superminhash_jaccard::<f64>", "symbolic lengths <= 6"),
+    H("c14_smh_method_f64_m4", 600, "quick", "SuperMinHash::<f64>::get_jaccard_index_estimate on an arbitrary stored sketch", "m=4, other length <= 4"),
+    H("c14_smh_method_f32_m3", 600, "thorough", "SuperMinHash::<f32>::get_jaccard_index_estimate", "m=3"),
+    H("c14_smh2_free_n3", 900, "quick", "superminhasher2::compute_superminhash_jaccard::<u64>: exact, symmetric, Err on unequal lengths", "length 3 (and 2 vs 3)"),
+    H("c14_smh2_free_n4", 900, "thorough", "same", "length 4"),
+    H("c14_smh2_method_m3", 900, "quick", "SuperMinHash2::get_jaccard_index_estimate", "m=3"),
+]
+SPECS["C14"] = dict(
+    level="model_checking", harnesses=_c14,
+    functions=["jaccard::compute_probminhash_jaccard", "jaccard::get_jaccard_index_estimate", "superminhasher::compute_superminhash_jaccard", "superminhasher::get_jaccard_index_estimate",
+               "SuperMinHash::get_jaccard_index_estimate", "superminhasher2::compute_superminhash_jaccard", "SuperMinHash2::get_jaccard_index_estimate"],
+    bounds={"quick": "sketch length <= 4 (symbolic), element types u64, f64, f32", "thorough": "sketch length <= 6"},
+    outside="lengths above the bound; NaN elements (NaN != NaN, so 'identical sketches give 1' is false for them by IEEE semantics); MleJaccard::get_mle",
+    assumptions=["float sketches contain no NaN"],
+    not_decided=["MleJaccard::get_mle returns a finite value in [0,1] and never aborts: rayon + argmin Executor + slog terminal observer are outside what Kani or an SMT encoding of MIR reaches (threads, trait objects, I/O)"],
+    level_text="Bounded model checking of every counting estimator on symbolic sketches of symbolic length up to the bound: the returned value is exactly matches/length (bit-exact), symmetric, 1 on identical arguments, within [0,1]; on unequal lengths no value is ever returned (Err or panic, shown by an unreachable-cover).",
+    level_note="Trusted: Kani/CBMC. Lengths bounded; NaN excluded; the maximum-likelihood estimator clause of C14 is NOT decided (stated in evidence).",
+    technique="Kani/CBMC bounded model checking over symbolic slices",
+)
+
+# --------------------------------------------------------------------------------------- C18
+_c18 = [H("c18_" + t, 300, "quick", "get_sig for %s: bytes == to_ne_bytes, equal values <=> equal bytes" % t, "all values") for t in ("u8", "u16", "u32", "u64", "i16", "i32")]
+for ty, ls, q in (("u8", (0, 1, 3, 6), (0, 3)), ("u16", (0, 1, 2, 3, 5), (0, 1, 2)), ("u32", (0, 1, 2, 3, 4), (0, 1, 2))):
+    for l in ls:
+        _c18.append(H("c18_vec_%s_l%d" % (ty, l), 1500, "quick" if l in q else "thorough",
+                      "Vec<%s>::get_sig: concatenated ne bytes, argument intact, injective (vs. a vector of equal or one-shorter length), all owners dropped once" % ty,
+                      "length %d (concrete), all element values" % l))
+_c18.append(H("c18_string_n3", 900, "quick", "String::get_sig == UTF-8 bytes (ASCII content)", "len 0..=3 symbolic"))
+SPECS["C18"] = dict(
+    level="model_checking", harnesses=_c18,
+    functions=["probminhasher::sig::Sig::get_sig for u8,u16,u32,u64,i16,i32,Vec<u8>,Vec<u16>,Vec<u32>,String"],
+    bounds={"quick": "scalars: all values; vectors: each length in 0..=2 (u16,u32) / {0,3} (u8), all element values; strings: symbolic length 0..=3", "thorough": "vectors: every length up to 6 (u8) / 5 (u16) / 4 (u32)"},
+    outside="longer vectors (the code is length-uniform: one clone/copy of len*size bytes); non-ASCII string content",
+    assumptions=["CBMC's memory model: pointer validity, bounds, double free, free of non-heap or foreign object are checked; allocator alignment of the deallocation layout is not"],
+    not_decided=[],
+    level_text="Bounded model checking with CBMC's pointer and allocation checks: for every value / every vector up to the length bound the bytes are the native-endian representation, equal values give equal bytes and different values different bytes, the argument is intact, and every allocation is freed exactly once (no use after free, no double free).",
+    level_note="Trusted: Kani/CBMC memory model. Length bounded; a memory-safety counterexample is reported even when the native replay does not crash (undefined behaviour need not crash).",
+    technique="Kani/CBMC bounded model checking with pointer/allocation checks",
+)
